@@ -421,6 +421,14 @@ class Ctx:
         sa = isinstance(a, tuple) and a and a[0] == "S"
         if sa and name in ("sin", "cos", "sqrt", "acos", "abs") and not args:
             return fn({"abs": "Rabs"}.get(name, name), a)
+        if sa and name == "powi" and len(args) == 1 and args[0][0] == "num" and args[0][1].isdigit() and 1 <= int(args[0][1]) <= 4:
+            r = a
+            for _ in range(int(args[0][1]) - 1):
+                r = mul(r, a)
+            return r
+        if sa and name == "hypot" and len(args) == 1:
+            b = self.ev(args[0])
+            return fn("sqrt", add(mul(a, a), mul(b, b)))
         if sa and name == "sin_cos" and not args:
             return (fn("sin", a), fn("cos", a))
         if sa and name == "atan2" and len(args) == 1:
@@ -441,6 +449,16 @@ class Ctx:
         name = "::".join(p)
         if name in ("f64::sin", "f64::cos", "f64::sqrt", "f64::acos") and len(args) == 1:
             return fn(p[1], self.ev(args[0]))
+        if name == "f64::abs" and len(args) == 1:
+            return fn("Rabs", self.ev(args[0]))
+        if name == "f64::hypot" and len(args) == 2:
+            a, b = self.ev(args[0]), self.ev(args[1])
+            return fn("sqrt", add(mul(a, a), mul(b, b)))
+        if name == "f64::powi" and len(args) == 2 and args[1][0] == "num" and args[1][1].isdigit() and 1 <= int(args[1][1]) <= 4:
+            a = self.ev(args[0]); r = a
+            for _ in range(int(args[1][1]) - 1):
+                r = mul(r, a)
+            return r
         if name == "f64::atan2" and len(args) == 2:
             return fn("atan2", self.ev(args[0]), self.ev(args[1]))
         if name == "Matrix3::new" and len(args) == 9:
